@@ -43,12 +43,22 @@ def spec(tier):
         u = "ip_N%d" % n
         units[u] = dict(harness=["C04/h_misc.c"], sources=HOST_SRC, stubs=["base.c", "alloc_direct.c", "memchr.c", "memcmp_loop.c", "mem0.c"], defines={"N": n})
         jobs.append(dict(unit=u, entry="h_ipv6_arbitrary", unwind=n + 4, bounds="%d arbitrary bytes, plain and URI-encoded zone form" % n, what="IPv6 literal check on arbitrary bytes"))
+    # CBOR: ONE decoder step (a single cbor_stream_decode call) on arbitrary bytes; harness and unit definition shared with C10
+    import importlib.util, os
+    c10s = importlib.util.spec_from_file_location("c10spec", os.path.join(os.path.dirname(os.path.dirname(os.path.abspath(__file__))), "C10", "spec.py"))
+    c10 = importlib.util.module_from_spec(c10s); c10s.loader.exec_module(c10)
+    c10.FPR = c10.cbor_fp_restrictions()
+    for n in ([10] if quick else [10, 12]):
+        un = c10.mkunit(units, L=2, N=n)
+        jobs.append(dict(unit=un, entry="h_cbor_decode_first", unwind=n + 2, timeout=600 if quick else 2400,
+                         bounds="%d arbitrary bytes, first item only (one cbor_stream_decode call)" % n,
+                         what="CBOR decoder, first item of an arbitrary byte string: in-bounds, string views inside the input, registered error"))
     meta = dict(
-        functions_encoded=["xml_parser.c: aws_xml_parse, s_node_next_sibling, s_load_node_decl, aws_xml_node_traverse, accessors", "encoding.c + encoding_avx2.c decoders",
+        functions_encoded=["cbor.c + libcbor streaming.c/loaders.c: aws_cbor_decoder_peek_type / pop_next_bytes/text / consume_next_single_element (first item)", "xml_parser.c: aws_xml_parse, s_node_next_sibling, s_load_node_decl, aws_xml_node_traverse, accessors", "encoding.c + encoding_avx2.c decoders",
                            "byte_buf.c s_read_unsigned", "uri.c: aws_byte_buf_append_decoding_uri, aws_query_string_next_param/params", "host_utils.c aws_host_utils_is_ipv6"],
         bounds="XML documents of 3..5 (quick) / 2..7 bytes; base64 text up to 36; hex/UTF-8 up to 8; digits up to 21; URI/query up to 5/9; IPv6 up to 7/11",
         stubs=["base.c, alloc_direct.c, memchr.c, memcmp_loop.c, mem0.c", "stubs/simd lane models for the AVX2 decoder"],
-        out=["NOT DECIDED (encodings do not fit: >12 GB or >240 s even at 2 input bytes): JSON (cJSON), CBOR decoder, the URI table dispatcher s_init_from_uri_str, "
+        out=["NOT DECIDED (encodings do not fit: >12 GB or >240 s even at 2 input bytes): JSON (cJSON), the CBOR decoder beyond the first item of the input (sequences, nesting, whole-item skipping), the URI table dispatcher s_init_from_uri_str, "
              "s_advance_to_closing_tag (XML body / skip paths)", "date-time parsing, UUID, IPv4 (sscanf-based)", "inputs longer than the bounds"],
         assumptions=["XML callback behaviour restricted to the two scripts per job (abort; descend then abort)"])
     pre = [dict(name="SIMD models == hardware intrinsics", timeout=120,
